@@ -366,7 +366,61 @@ def h_run(spec, tag=""):
 
 
 h_run.shards = 16
-TASKS = [h_run]
+LOADER = "semantiva/configurations/load_pipeline_from_yaml.py"
+
+
+class ParserSpec(PureLibMixin, BaseSpec):
+    """the parser contract the _run harness assumes: dry_run / max_runs are read from the run_space block as written"""
+
+    def __init__(self):
+        super().__init__(PROP)
+        self.inline |= {(LOADER, "_parse_run_space_block")}
+
+    def instantiate_override(self, I, ci, args, kwargs, star):
+        if ci.name == "RunSpaceV1Config":
+            o = I.st.new_inst(ci)
+            for k, v in (("combine", vstr("combinatorial")), ("max_runs", vint(1000)), ("dry_run", vbool(False)), ("blocks", I.st.new_list())):
+                I.setattr(o, k, v)
+            return o
+        return MISSING
+
+    def isinstance_ext(self, I, v, cls):
+        if cls.dotted in ("typing.Mapping", "collections.abc.Mapping"):
+            v = I.lift(v)
+            return z3.And(V.is_ref(v), z3.Select(I.st.kinds, V.id(v)) == K_DICT)
+        return super().isinstance_ext(I, v, cls)
+
+
+def h_parse_run_space(spec):
+    s2 = ParserSpec()
+    s2.obligations, s2._seen, s2.undecided, s2.functions, s2.used_contracts = spec.obligations, spec._seen, spec.undecided, spec.functions, spec.used_contracts
+    fn_info(s2, LOADER, "_parse_run_space_block")
+
+    def body(I):
+        st = I.st
+        block = in_dict(I, "run_space_block")
+        h0 = st.h.copy()
+        has_mr, has_dr = z3.Select(ddom(h0, block), vstr("max_runs")), z3.Select(ddom(h0, block), vstr("dry_run"))
+        mr, dr = z3.Select(dval(h0, block), vstr("max_runs")), z3.Select(dval(h0, block), vstr("dry_run"))
+        # the values the CLI / YAML can put there: an integer cap, a boolean flag; no blocks (they do not matter here)
+        st.assume(z3.Implies(has_mr, V.is_int(mr)))
+        st.assume(z3.Implies(has_dr, V.is_bool(dr)))
+        st.assume(z3.Not(z3.Select(ddom(h0, block), vstr("blocks"))))
+        st.assume(z3.Not(z3.Select(ddom(h0, block), vstr("combine"))))
+        out = E.execute(I, E.hfunc(LOADER, "_parse_run_space_block"), [block])
+        if out[0] != "return":
+            return              # a rejection (ValueError): the _run harness treats a raising parser as "configuration invalid"
+        cfg = out[1]
+        h = st.h
+        s2.oblige(I, "parser/max_runs-is-the-cap-as-written(0-included)-default-1000", fld(h, cfg, "max_runs") == z3.If(has_mr, mr, vint(1000)),
+                  meta={"witness": "cap-lost"})
+        s2.oblige(I, "parser/dry_run-is-the-flag-as-written-default-false", fld(h, cfg, "dry_run") == z3.If(has_dr, dr, vbool(False)), meta={"witness": "flag-lost"})
+    E.run_function(s2, "_parse_run_space_block", body)
+    spec.path_count += s2.path_count
+    spec.assumptions |= s2.assumptions
+
+
+TASKS = [h_parse_run_space, h_run]
 
 
 def factory():
